@@ -8,6 +8,7 @@ import (
 	"fmt"
 	"io"
 	"net"
+	"testing"
 	"testing/synctest"
 
 	"github.com/pion/ice/v4/internal/zzmc"
@@ -224,4 +225,75 @@ func c13refcountInbound() zzmc.Scenario {
 			}
 		},
 	}
+}
+
+// ---------------------------------------------------------------- C15: one ufrag on two local addresses
+
+// c15twoLocals: a ufrag has a packet connection per local address. Closing the last handle of one of them leaves the
+// other registered and working, and the mux's Close still ends everything. Both orders; returns the problems found.
+func c15twoLocals(t *testing.T) (problems []string, n int) {
+	for _, first := range []int{0, 1} {
+		inBubble(t, func() {
+			lis := &fakeLis{ch: make(chan net.Conn), closed: make(chan struct{}), addr: &net.TCPAddr{IP: net.ParseIP("10.0.0.1").To4(), Port: 7001}}
+			m := NewTCPMuxDefault(TCPMuxParams{Listener: lis, Logger: nopLogger{}, ReadBufferSize: 16})
+			ips := []net.IP{net.ParseIP("10.0.0.1").To4(), net.ParseIP("10.0.0.2").To4()}
+			var hs [2]net.PacketConn
+			for i, ip := range ips {
+				h, err := m.GetConnByUfrag("u1", false, ip)
+				if err != nil {
+					panic(err)
+				}
+				hs[i] = h
+			}
+			other := 1 - first
+			_ = hs[first].Close()
+			synctest.Wait()
+			n++
+			// a client that connects to the other local address and names the ufrag reaches the handle that is still open
+			got := make(chan string, 4)
+			go func() {
+				buf := make([]byte, 2000)
+				for {
+					k, from, err := hs[other].ReadFrom(buf)
+					if err != nil {
+						close(got)
+
+						return
+					}
+					got <- fmt.Sprintf("%d@%v", k, from)
+				}
+			}()
+			c, srv := newPipe(&net.TCPAddr{IP: net.ParseIP("192.0.2.9").To4(), Port: 40001}, &net.TCPAddr{IP: ips[other], Port: 7001})
+			lis.ch <- srv
+			wire, _, _ := c15first("u1")
+			_, _ = c.Write(wire)
+			synctest.Wait()
+			select {
+			case g, ok := <-got:
+				if !ok {
+					problems = append(problems, fmt.Sprintf("after the connection on %s was closed, the handle on %s is closed too", ips[first], ips[other]))
+				} else if g == "" {
+					problems = append(problems, "empty delivery")
+				}
+			default:
+				problems = append(problems, fmt.Sprintf("after the connection of the ufrag on %s was closed, a client for the same ufrag on %s no longer reaches its (open) connection", ips[first], ips[other]))
+			}
+			done := make(chan struct{})
+			go func() {
+				_ = m.Close()
+				close(done)
+			}()
+			synctest.Wait()
+			select {
+			case <-done:
+			default:
+				problems = append(problems, fmt.Sprintf("mux Close does not return after the connection on %s was closed while the one on %s is open", ips[first], ips[other]))
+				_ = hs[other].Close() // let the bubble end
+				synctest.Wait()
+			}
+			_ = c.Close()
+		})
+	}
+
+	return problems, n
 }
